@@ -170,6 +170,8 @@ def check(run):
         worst[c["kind"]] = max(worst.get(c["kind"], 0), c.get("us", 0))
         for m in c.get("oracle") or []:
             run.add_oracle_failure(signature(m), m, brief(c))
+    if any("hook in Stream.Close did not run" in (c.get("skipped") or "") for c in cases):
+        run.add_corr_break("S: the scheduling hook compiled into Stream.Close never ran: the scenario close-vs-callback-start was not executed")
     if cases and skipped > len(cases) // 3:
         run.add_corr_break("T: %d of %d scenarios could not be set up (machine overloaded?)" % (skipped, len(cases)))
     # class 8 (the call did not return) is an oracle failure; the model has no blocked interleaving for these kinds
